@@ -162,6 +162,10 @@ func runC04(r *Runner, g *Gen, tier string) string {
 				}
 			}
 		}
+		// descriptor rendering of moderately deep nests stays within a fixed multiple of the input (deep ones: F22)
+		for _, d := range []int{10, 20, 31} {
+			r.Do(L(A("jdescdeep"), A(fmt.Sprint(d))), true, "jdescdeep")
+		}
 		// the BigQuery timestamp codec behind a nil pointer and as a map key (its New() must hand out a whole time.Time)
 		for i := 0; i < scale(tier, 3, 40); i++ {
 			r.Do(L(A("bqptr"), A(fmt.Sprint(50+i*40))), true, "bqptr")
